@@ -67,19 +67,21 @@ where
             // update high and low values if needed
             if old_val >= self.high {
                 // re-compute high
-                self.high = *self
+                self.high = self
                     .q_vals
                     .iter()
+                    .copied()
                     .max_by(|x, y| x.partial_cmp(y).unwrap_or(Ordering::Equal))
-                    .unwrap();
+                    .unwrap_or(val);
             }
             if old_val <= self.low {
                 // re-compute low
-                self.low = *self
+                self.low = self
                     .q_vals
                     .iter()
+                    .copied()
                     .min_by(|x, y| x.partial_cmp(y).unwrap_or(Ordering::Equal))
-                    .unwrap();
+                    .unwrap_or(val);
             }
         }
         self.q_vals.push_back(val);
